@@ -124,6 +124,22 @@ auto __redu_len(const T &value) -> decltype(value.length()) {
 }
 """
 
+MATH_HELPER_SNIPPET = """template <typename A>
+A __redu_abs(A value) {
+  return value < 0 ? -value : value;
+}
+
+template <typename A, typename B>
+auto __redu_min(A a, B b) -> decltype(a + b) {
+  return b < a ? b : a;
+}
+
+template <typename A, typename B>
+auto __redu_max(A a, B b) -> decltype(a + b) {
+  return b > a ? b : a;
+}
+"""
+
 LIST_HELPER_SNIPPET = """template <typename T>
 struct __redu_list {
   T *data;
@@ -3199,6 +3215,8 @@ def emit(ast: Program) -> str:
         parts.append("#include <Wire.h>\n#include <LiquidCrystal_I2C.h>\n\n")
     if lcd_state:
         parts.append(LCD_HELPER_SNIPPET + "\n")
+    if "math" in helpers:
+        parts.append(MATH_HELPER_SNIPPET + "\n")
     if "list" in helpers:
         parts.append(LIST_HELPER_SNIPPET + "\n")
     if "len" in helpers:
